@@ -469,6 +469,24 @@ def radix_near(F, r, m, e, nd, base=None, xr=None, above_mid=True):
     return D, q, exact
 
 
+def underflow_boundary(F, r, base, xr, echar):
+    """the bottom of the range: values around half of the smallest denormal (above half: rounds to it; the tie and below:
+    zero), and around the smallest denormal and 1.5 times it, written with 2 / 20 / 45 digits (floor and ceiling)"""
+    import math
+    from fractions import Fraction
+    out = []
+    for (num, den) in ((1, 2), (3, 4), (5, 8), (1, 4), ((1 << 40) + 1, 1 << 41), ((1 << 40) - 1, 1 << 41), (9, 16), (1, 1), (3, 2),
+                       ((1 << 70) + 1, 1 << 71)):
+        V = Fraction(num, den) * Fraction(2) ** F["emin"]
+        for nd in (2, 20, 45):
+            q = int((math.log(num / den, 2) + F["emin"]) * math.log(2) / math.log(base)) - int(nd * math.log(r) / math.log(base)) - 1
+            Dq = V / Fraction(base) ** q
+            for D in {Dq.numerator // Dq.denominator, -(-Dq.numerator // Dq.denominator)}:
+                if D > 0:
+                    out.append(("%s%s%s" % (to_radix(D, r), echar, exp_str(q, xr)), "underflow-boundary"))
+    return out
+
+
 def radix_inputs(F, r, rng, nbin, base=None, xr=None, echar="^", long_frac=0.1):
     """list of (string, tag) in mantissa radix r / exponent base / exponent radix xr"""
     base = base or r
@@ -504,17 +522,7 @@ def radix_inputs(F, r, rng, nbin, base=None, xr=None, echar="^", long_frac=0.1):
         nd = rng.choice([1, 3, 8, 14, 20])
         ds = "".join(rng.choice(DIG[:r]) for _ in range(nd)).lstrip("0") or "1"
         out.append(("%s%s%s" % (ds, echar, exp_str(q, xr)), "radix-exp-sweep"))
-    # the bottom of the range: values around half of the smallest denormal (above half: rounds to it; the tie and below: zero)
-    from fractions import Fraction
-    for (num, den) in ((1, 2), (3, 4), (5, 8), (1, 4), ((1 << 40) + 1, 1 << 41), ((1 << 40) - 1, 1 << 41), (9, 16), (1, 1), (3, 2),
-                       ((1 << 70) + 1, 1 << 71)):
-        V = Fraction(num, den) * Fraction(2) ** F["emin"]
-        for nd in (2, 20, 45):
-            q = int((math.log(num / den, 2) + F["emin"]) * math.log(2) / math.log(base)) - int(nd * math.log(r) / math.log(base)) - 1
-            Dq = V / Fraction(base) ** q
-            for D in {Dq.numerator // Dq.denominator, -(-Dq.numerator // Dq.denominator)}:
-                if D > 0:
-                    out.append(("%s%s%s" % (to_radix(D, r), echar, exp_str(q, xr)), "underflow-boundary"))
+    out += underflow_boundary(F, r, base, xr, echar)
     # positional forms and zeros
     for _ in range(6):
         a = "".join(rng.choice(DIG[:r]) for _ in range(rng.choice([1, 4, 9, 20])))
